@@ -33,8 +33,11 @@ Definition elems_v (v : list scope * list (str * dtag) * bool * (bool * bool * l
 Definition elems (s : st) : list str := elems_v (view s).
 Definition out (s : st) : str := flat (wout s) ++ flat (buf s).
 
+(* [BASE] is the stack of elements already open when the body starts: [] for a fragment, [body; html] inside a complete document *)
+Section Base.
+Context {BASE : list str}.
 Record Inv (s : st) : Prop := {
-  inv_run : run (out s) (Txt, []) = (Txt, rev (elems s));
+  inv_run : run (out s) (Txt, []) = (Txt, rev (elems s) ++ BASE);
   inv_buf : par s = false -> buf s = [];
   inv_fmt : fmt s = FX;
 }.
@@ -59,7 +62,7 @@ Proof. intros H [H1 H2 H3]. split.
 (* one output step: bytes appended, abstraction updated *)
 Lemma Inv_step s s' x : Inv s -> out s' = out s ++ x -> run x (Txt, rev (elems s)) = (Txt, rev (elems s')) ->
   (par s' = false -> buf s' = []) -> fmt s' = FX -> Inv s'.
-Proof. intros [H1 H2 H3] Ho Hr Hb Hf. split; [|exact Hb|exact Hf]. rewrite Ho, run_app, H1. exact Hr. Qed.
+Proof. intros [H1 H2 H3] Ho Hr Hb Hf. split; [|exact Hb|exact Hf]. rewrite Ho, run_app, H1. apply run_frame; [exact Hr|discriminate]. Qed.
 
 (* ---------- output-only steps are [w x]; several of them are [wl l] (newest chunk first) ---------- *)
 Fixpoint wl (l : list str) (s : st) : st := match l with [] => s | x :: r => w x (wl r s) end.
@@ -519,3 +522,4 @@ Lemma run_ptitle t : (forall stk, run t (Txt, stk) = (Txt, stk)) ->
   forall stk, run (R "<p class=""paragraph""><strong class=""paragraph"">" ++ t ++ R "</strong>" ++ NLs) (Txt, stk) = (Txt, R "p" :: stk).
 Proof. intros Ht stk. rewrite run_app. change (run (R "<p class=""paragraph""><strong class=""paragraph"">") (Txt, stk)) with (Txt, R "strong" :: R "p" :: stk).
   rewrite run_app, Ht. reflexivity. Qed.
+End Base.
